@@ -1198,6 +1198,7 @@ def main():
     import hdr2lean    # FrameHeader: the header decoder and encoder
     import mask2lean   # mask.rs: apply_mask, the fallback and the word-wise fast path
     import readin2lean  # FrameCodec::read_in: resize / read / truncate of the input buffer
+    import verify2lean  # VerifyData::verify_response: the client's decision on the response
     gens = GENERATORS + [('Ctx.lean', ctx2lean.gen_ctx), ('CodecGen.lean', codec2lean.gen_codec),
                          ('HsGen.lean', hs2lean.gen_hs), ('CollGen.lean', coll2lean.gen_coll),
                          ('FrameGen.lean', frame2lean.gen_frame),
@@ -1206,7 +1207,8 @@ def main():
                          ('RespGen.lean', resp2lean.gen_resp),
                          ('HdrGen.lean', hdr2lean.gen_hdr),
                          ('MaskGen.lean', mask2lean.gen_mask),
-                         ('ReadInGen.lean', readin2lean.gen_readin)]
+                         ('ReadInGen.lean', readin2lean.gen_readin),
+                         ('VerifyGen.lean', verify2lean.gen_verify)]
     for name, fn in gens:
         try:
             text = fn(repo)
